@@ -203,6 +203,7 @@ def cq_q(x):
     if isinstance(x, int):
         fr = Fraction(x)
     elif isinstance(x, float):
+        if math.isinf(x) or math.isnan(x): raise Unsupported('non-finite number (the model has exact rationals and NaN only)')
         fr = Fraction(*x.as_integer_ratio())
     elif isinstance(x, Fraction):
         fr = x
